@@ -196,19 +196,19 @@ Fixpoint real_run (raw : N) (ops : list hop) : res N :=
 (** an operation the API admits: a writable field of the declaration, an in-range index, a
     value of the field's type *)
 Definition hop_ok (o : hop) : Prop :=
-  In (h_f o) (d_fields d) /\ f_set (h_f o) = true /\ h_i o < count (h_f o)
+  In (h_f o) (d_fields d) /\ f_set (h_f o) = true /\ dup_bits (h_f o) = false /\ h_i o < count (h_f o)
   /\ h_v o < 2 ^ ty_width (f_ty (h_f o)).
 
 (** the setter obligations of [Prog.obligations] for every writable field *)
 Definition setters_ok : Prop :=
-  forall f, In f (d_fields d) -> f_set f = true ->
+  forall f, In f (d_fields d) -> f_set f = true -> dup_bits f = false ->
             ob_with (d_W d) (p_fns p) f = true /\ ob_set (d_W d) (p_fns p) f = true.
 
 Lemma real_step_ok raw o :
   setters_ok -> hop_ok o -> raw < 2 ^ d_W d ->
   real_step raw o = Ok (apply raw (hop_wop o)) /\ apply raw (hop_wop o) < 2 ^ d_W d.
 Proof.
-  intros S (Hin & Hset & Hi & Hv) Hraw. destruct (S _ Hin Hset) as [Ow Os].
+  intros S (Hin & Hset & Hdup & Hi & Hv) Hraw. destruct (S _ Hin Hset Hdup) as [Ow Os].
   unfold real_step, body_of, apply, hop_wop. cbn [w_f w_i w_v].
   destruct (h_kind o).
   - unfold ob_with in Ow. destruct (find_fn _ _) as [fn|]; [|discriminate].
@@ -268,10 +268,10 @@ Lemma obligations_setters_ok d p :
   forallb snd (obligations d p) = true -> setters_ok d p.
 Proof.
   unfold obligations. rewrite forallb_app. intros H. apply andb_prop in H. destruct H as [_ H].
-  rewrite forallb_forall in H. intros f Hin Hset.
+  rewrite forallb_forall in H. intros f Hin Hset Hdup.
   assert (A : forall ob, In ob (field_obligations (d_W d) (p_fns p) f) -> snd ob = true).
   { intros ob Hob. apply H. apply in_flat_map. exists f. auto. }
-  unfold field_obligations in A. rewrite Hset in A. split.
+  unfold field_obligations in A. rewrite Hset, Hdup in A. split.
   - apply (A (("with:" ++ f_name f)%string, ob_with (d_W d) (p_fns p) f)). apply in_or_app. right. now left.
   - apply (A (("set:" ++ f_name f)%string, ob_set (d_W d) (p_fns p) f)). apply in_or_app. right. right. now left.
 Qed.
